@@ -1,16 +1,30 @@
-"""C12 tables: dataclass field lists of XLCell / XLFormula / XLRange / f_token (from `dataclasses.fields`
-of the running code), the keys `persist_to_json_file` writes and `construct_from_json_file` reads, the
-`classes=(…)` allow-list, the `keys=` flags, the file-extension tests of writer and reader (Python `ast`
-on the source of model.py), `ExcelType.__getnewargs__`, and a behavioural probe telling whether the
-compiled AST is part of the persisted graph."""
+"""C12 tables, taken from what the running code DOES (introspection and probes), not from how its source is
+written — so that a behaviour-preserving refactoring regenerates the same tables:
+
+* dataclass field lists of XLCell / XLFormula / XLRange / f_token / Model: `dataclasses.fields`;
+* which file names are written gzip-compressed / read through gzip: probes (magic bytes of the file written;
+  which of a plain and a compressed payload `construct_from_json_file` accepts under that name); from the
+  probed extension spellings the tables `writerGzipExts` / `readerGzipExts` (+ "is the test case-insensitive")
+  are derived, and the raw observations for awkward names are emitted as `codecProbe`;
+* the keys written: top-level keys of the JSON a probe model is persisted to, each matched to the model
+  attribute whose dict it holds; the keys read: which section of that file ends up in which attribute of a
+  fresh `Model()`; which keys the reader insists on (file with the key removed);
+* the decode allow-list: which classes `construct_from_json_file` rebuilds when jsonpickle's import fallback is
+  blocked for the package's modules;
+* `keys=`: whether a `json://` key is escaped by the writer / unescaped by the reader;
+* `ExcelType`: slots, `__getnewargs__()` of probe instances, which `__new__` need arguments (by calling them);
+* whether the compiled AST is part of the persisted graph, whether the reader compiles (`build_code=True`).
+
+The source text is still read (tolerantly) for one informational comment in the generated file; nothing in the
+tables depends on it."""
 import ast
 import dataclasses
+import gzip
 import inspect
 import json
 import os
 import tempfile
 import textwrap
-import typing
 
 from ._lean import chars, boolean, lst
 
@@ -121,101 +135,278 @@ def keys_flag(fn, func_name):
     return calls[0], kw, bool(keys)
 
 
+# extension spellings from which the writer's / reader's extension tables are derived
+SPELLINGS = ['.gz', '.gzip', '.GZ', '.Gzip', '.GZIP', '.gZ', '.gzIP', '.json', '.JSON', '', '.txt', '.zip',
+             '.gzz', '.gzi', '.g', '.z', '.tgz', '.bz2', '.gz2', '.jgz', '.gzipp', '.gz_', '.xz']
+# awkward names: the observations go into `codecProbe`, the Lean model has to agree on every one of them
+NAMES = ['m.json', 'm.gz', 'm.GZ', 'm.gzip', 'm.Gzip', 'm.gz.json', 'm.json.gz', 'm.json.GZIP', 'model', '.gz',
+         '..gz', 'a..gz', '.hidden.gz', 'm.tar.gz', 'mgz', 'm.gz.', 'm..gzip', 'm.gzip.bak', 'm.g z', 'a b.gz',
+         'dir.gz/m', 'dir.gz/m.json', 'dir.d/.gz', 'dir.d/..gzip', 'dir.d/x.gzip', 'dir.gz/.hidden',
+         'dir.GZ/sub.x/m.jsn.Gz', 'ünï cödé.GZ', '日本.gzip', '...', 'm.']
+
+
+class _Strict:
+    """Block jsonpickle's import fallback for the package's own modules: only `classes=` may resolve them."""
+
+    def __enter__(self):
+        import jsonpickle.unpickler as up
+        self.up, self.orig = up, up.loadclass
+
+        def loadclass(name, classes=None):
+            if isinstance(name, str) and name.startswith('xlcalculator.'):
+                if classes and (name in classes or name.rsplit('.', 1)[-1] in classes):
+                    return self.orig(name, classes=classes)
+                return None
+            return self.orig(name, classes=classes)
+        up.loadclass = loadclass
+        return self
+
+    def __exit__(self, *a):
+        self.up.loadclass = self.orig
+
+
+def _payload_of(path):
+    with open(path, 'rb') as fh:
+        raw = fh.read()
+    gz = raw[:2] == b'\x1f\x8b'
+    return gz, (gzip.decompress(raw) if gz else raw)
+
+
+def _probe_model(compiled):
+    import xlcalculator
+    mc = xlcalculator.ModelCompiler()
+    mc.read_and_parse_dict({'Sheet1!A1': 1, 'Sheet1!A2': 2, 'Sheet1!B1': '=SUM(A1:A2)', 'Sheet1!C1': '=A1+1'},
+                           build_code=False)
+    mc.defined_names = {'nm': 'Sheet1!$B$1', 'rg': 'Sheet1!$A$1:$A$2'}
+    mc.build_defined_names()
+    mc.link_cells_to_defined_names()
+    mc.build_ranges(default_sheet='Sheet1')
+    if compiled:
+        mc.model.build_code()
+    return mc.model
+
+
+def _tiny():
+    import xlcalculator
+    return xlcalculator.ModelCompiler().read_and_parse_dict({'Sheet1!A1': 1, 'Sheet1!B1': '=A1+1'})
+
+
+def _writes_gzip(td, n, name):
+    path = os.path.join(td, f'w{n}', name)
+    os.makedirs(os.path.dirname(path), exist_ok=True)
+    _tiny().persist_to_json_file(path)
+    return _payload_of(path)[0]
+
+
+def _reads_gzip(td, n, name, payload, model_cls):
+    """Which of a plain and a gzip-compressed payload does the reader accept under this name?"""
+    for k, (is_gz, data) in enumerate([(False, payload), (True, gzip.compress(payload))]):
+        path = os.path.join(td, f'r{n}_{k}', name)
+        os.makedirs(os.path.dirname(path), exist_ok=True)
+        with open(path, 'wb') as fh:
+            fh.write(data)
+        try:
+            m = model_cls()
+            m.construct_from_json_file(path)
+            if isinstance(m.cells, dict) and len(m.cells) == 2:
+                return is_gz
+        except Exception:  # noqa: BLE001 - the other payload is the one this name is read with
+            continue
+    raise ValueError(f'reader accepts neither a plain nor a gzip payload under the name {name!r}')
+
+
+def _ext_table(observed):
+    """(case-insensitive?, extensions) explaining the observations {spelling: gzip?}."""
+    gz = [e for e, g in observed.items() if g]
+    lower = sorted({e.lower() for e in gz})
+    insensitive = all(g for e, g in observed.items() if e.lower() in lower)
+    return (True, lower) if insensitive else (False, sorted(gz))
+
+
+def _source_note(model_cls):
+    """Informational only: the extension literals as the source spells them (never fails)."""
+    try:
+        notes = []
+        for name in ('persist_to_json_file', 'construct_from_json_file'):
+            fn = method_ast(model_cls, name)
+            lits = [n.value for n in ast.walk(fn) if isinstance(n, ast.Constant) and isinstance(n.value, str)
+                    and n.value.startswith('.')]
+            notes.append(f'{name}: extension literals in the method body {lits!r}')
+        return '; '.join(notes)
+    except Exception as exc:  # noqa: BLE001
+        return f'not readable ({type(exc).__name__})'
+
+
 def emit():
-    from xlcalculator import model, xltypes, tokenizer
+    from xlcalculator import model, xltypes, tokenizer, ast_nodes
     from xlcalculator.xlfunctions import func_xltypes, xlerrors
     import xlcalculator  # noqa: F401
+    Model = model.Model
 
     classes = [xltypes.XLCell, xltypes.XLFormula, xltypes.XLRange, tokenizer.f_token]
     class_rows = [f'⟨{chars(qualname(c))}, {lst(field_rows(c), per_line=False)}⟩' for c in classes]
+    model_rows = field_rows(Model)
+    model_attrs = [f.name for f in dataclasses.fields(Model)]
 
-    # ---- what persist_to_json_file writes
-    wfn = method_ast(model.Model, 'persist_to_json_file')
-    dicts = [n for n in ast.walk(wfn) if isinstance(n, ast.Dict)]
-    if len(dicts) != 1:
-        raise ValueError('persist_to_json_file: expected one dict literal')
-    writes = []
-    for k, v in zip(dicts[0].keys, dicts[0].values):
-        attr = self_attr(v)
-        if not (isinstance(k, ast.Constant) and isinstance(k.value, str)) or attr is None:
-            raise ValueError('persist_to_json_file: output entry is not `"key": self.attr`')
-        writes.append((k.value, attr))
-    _, _, enc_keys = keys_flag(wfn, 'encode')
-    w_lowers, w_exts = ext_test(wfn)
+    with tempfile.TemporaryDirectory(prefix='c12probe') as td:
+        # ---- the keys written, and the attribute each holds
+        pm = _probe_model(compiled=False)
+        pfile = os.path.join(td, 'probe.json')
+        pm.persist_to_json_file(pfile)
+        _, payload = _payload_of(pfile)
+        data = json.loads(payload.decode())
+        if not isinstance(data, dict):
+            raise ValueError('the persisted JSON is not an object')
 
-    # ---- what construct_from_json_file reads
-    rfn = method_ast(model.Model, 'construct_from_json_file')
-    call, kw, dec_keys = keys_flag(rfn, 'decode')
-    if 'classes' not in kw:
+        def keyset(d):
+            return frozenset(k for k in d if not k.startswith('py/')) if isinstance(d, dict) else None
+        attr_keys = {a: frozenset(getattr(pm, a)) for a in model_attrs if isinstance(getattr(pm, a), dict)}
+        writes = []
+        for k, sec in data.items():
+            owners = [a for a, ks in attr_keys.items() if ks == keyset(sec)]
+            writes.append((k, owners[0] if len(owners) == 1 else '?'))
+
+        # ---- the keys read: which section ends up in which attribute of a fresh Model()
+        fresh = Model()
+        fresh.construct_from_json_file(pfile)
+        reads = []
+        for a in model_attrs:
+            v = getattr(fresh, a)
+            if isinstance(v, dict) and v:
+                src = [k for k, sec in data.items() if keyset(sec) == frozenset(v)]
+                if len(src) == 1:
+                    reads.append((a, src[0]))
+        requires = []
+        for i, k in enumerate(data):
+            cut = {kk: vv for kk, vv in data.items() if kk != k}
+            # (back references into the removed section would dangle: rebuild the text from a model without sharing)
+            path = os.path.join(td, f'cut{i}.json')
+            with open(path, 'wb') as fh:
+                fh.write(json.dumps(cut).encode())
+            try:
+                Model().construct_from_json_file(path)
+            except KeyError:
+                requires.append(k)
+            except Exception:  # noqa: BLE001 - dangling py/id etc.: says nothing about the key
+                pass
+
+        # ---- does the reader compile on request?
+        try:
+            compiled = Model()
+            compiled.construct_from_json_file(pfile, build_code=True)
+            build_param = compiled.cells['Sheet1!B1'].formula.ast is not None
+        except TypeError:
+            build_param = False
+
+        # ---- gzip or plain, per extension spelling and per awkward name
+        _, tiny_payload = _payload_of(_persist_plain(td))
+        w_obs = {e: _writes_gzip(td, f'e{i}', 'm' + e) for i, e in enumerate(SPELLINGS)}
+        r_obs = {e: _reads_gzip(td, f'e{i}', 'm' + e, tiny_payload, Model) for i, e in enumerate(SPELLINGS)}
+        w_lowers, w_exts = _ext_table(w_obs)
+        r_lowers, r_exts = _ext_table(r_obs)
+        codec_rows = []
+        for i, name in enumerate(NAMES):
+            codec_rows.append((name, _writes_gzip(td, f'n{i}', name), _reads_gzip(td, f'n{i}', name, tiny_payload, Model)))
+
+        # ---- keys=: is a `json://` key escaped on the way out / unescaped on the way in?
+        try:
+            jm = xlcalculator.ModelCompiler().read_and_parse_dict({'json://p!A1': 1})
+            jf = os.path.join(td, 'jsonkey.json')
+            jm.persist_to_json_file(jf)
+            jd = json.loads(_payload_of(jf)[1].decode())
+            enc_keys = any(k.startswith('json://"') or k.startswith("json://'") for sec in jd.values()
+                           if isinstance(sec, dict) for k in sec)
+        except Exception:  # noqa: BLE001
+            enc_keys = False
+        try:
+            kf = os.path.join(td, 'jsonkey2.json')
+            kd = {k: {} for k in data}
+            first_key = reads[0][1] if reads else next(iter(data))
+            kd[first_key] = {'json://"zz"': 1}
+            with open(kf, 'wb') as fh:
+                fh.write(json.dumps(kd).encode())
+            km = Model()
+            km.construct_from_json_file(kf)
+            dec_keys = 'zz' in getattr(km, reads[0][0] if reads else 'cells')
+        except Exception:  # noqa: BLE001
+            dec_keys = False
+
+        # ---- the allow-list: what is rebuilt when the import fallback is blocked
+        candidates = []
+        for mod in (xltypes, tokenizer, ast_nodes, func_xltypes, xlerrors):
+            for obj in vars(mod).values():
+                if isinstance(obj, type) and obj.__module__ == mod.__name__ and obj not in candidates:
+                    candidates.append(obj)
         allow = []
-    else:
-        allow = []
-        ns = vars(model)
-        for e in kw['classes'].elts:
-            obj = eval(compile(ast.Expression(e), '<allow-list>', 'eval'), ns)  # noqa: S307 - the repo's own names
-            allow.append(qualname(obj))
-    reads = []
-    for node in ast.walk(rfn):
-        if isinstance(node, ast.Assign) and len(node.targets) == 1:
-            attr = self_attr(node.targets[0])
-            v = node.value
-            if (attr is not None and isinstance(v, ast.Subscript) and isinstance(v.value, ast.Name)
-                    and v.value.id == 'data'):
-                reads.append((attr, ast.literal_eval(v.slice)))
-    r_lowers, r_exts = ext_test(rfn)
-    build_param = 'build_code' in [a.arg for a in rfn.args.args]
+        if reads:
+            attr0, key0 = reads[0]
+            ad = {k: {} for k in data}
+            ad[key0] = {qualname(c): {'py/object': qualname(c)} for c in candidates}
+            af = os.path.join(td, 'allow.json')
+            with open(af, 'wb') as fh:
+                fh.write(json.dumps(ad).encode())
+            with _Strict():
+                am = Model()
+                am.construct_from_json_file(af)
+            got = getattr(am, attr0)
+            for c in candidates:
+                if type(got.get(qualname(c))) is c:
+                    allow.append(qualname(c))
 
-    # ---- the Model's own fields
-    model_rows = field_rows(model.Model)
+        # ---- is the compiled AST part of the persisted graph?
+        cm = _probe_model(compiled=True)
+        cf = os.path.join(td, 'compiled.json')
+        cm.persist_to_json_file(cf)
+        cdata = json.loads(_payload_of(cf)[1].decode())
 
-    # ---- ExcelType: __slots__, __getnewargs__, __new__
+        def has_ast(j):
+            if isinstance(j, dict):
+                return any((k == 'ast' and v is not None) or has_ast(v) for k, v in j.items())
+            if isinstance(j, list):
+                return any(has_ast(v) for v in j)
+            return False
+        persists_ast = has_ast(cdata)
+        if cm.cells['Sheet1!B1'].formula.ast is None:
+            raise ValueError('probe: persist_to_json_file removed the AST from the live model')
+
+    # ---- ExcelType: slots, __getnewargs__, __new__ (introspection and calls)
     et = func_xltypes.ExcelType
     slots = et.__slots__
     slots = [slots] if isinstance(slots, str) else list(slots)
-    has_newargs = '__getnewargs__' in vars(et) or any('__getnewargs__' in vars(c) for c in et.__mro__[1:-1])
-    newargs_attrs = []
-    if has_newargs:
-        gfn = method_ast(et, '__getnewargs__')
-        rets = [n for n in ast.walk(gfn) if isinstance(n, ast.Return)]
-        if len(rets) == 1 and isinstance(rets[0].value, ast.Tuple):
-            for e in rets[0].value.elts:
-                a = self_attr(e)
-                newargs_attrs.append(a if a is not None else '?')
-        else:
-            newargs_attrs = ['?']
-    new_params = [p.name for p in list(inspect.signature(et.__new__).parameters.values())[1:]]
     subclasses = []
     for c in func_xltypes.NATIVE_TO_XLTYPE.values():
         if isinstance(c, type) and issubclass(c, et) and c not in subclasses:
             subclasses.append(c)
+    samples = {'Number': 3, 'Text': 'x', 'Boolean': True, 'Blank': None}
+    has_newargs = all(hasattr(c, '__getnewargs__') for c in subclasses)
+    newargs_attrs = ['?']
+    if has_newargs:
+        ok = True
+        for c in subclasses:
+            if c.__name__ not in samples:
+                continue
+            inst = c(samples[c.__name__])
+            args = inst.__getnewargs__()
+            if tuple(args) != tuple(getattr(inst, sl) for sl in slots):
+                ok = False
+            else:
+                again = c.__new__(c, *args)
+                ok = ok and all(getattr(again, sl) == getattr(inst, sl) for sl in slots)
+        newargs_attrs = list(slots) if ok else ['?']
+    new_params = [p.name for p in list(inspect.signature(et.__new__).parameters.values())[1:]]
     new_required = []
     for c in subclasses:
-        ps = list(inspect.signature(c.__new__).parameters.values())[1:]
-        if any(p.default is p.empty and p.kind in (p.POSITIONAL_ONLY, p.POSITIONAL_OR_KEYWORD) for p in ps):
+        try:
+            c.__new__(c)
+        except TypeError:
             new_required.append(c)
     error_classes = [xlerrors.ExcelError, xlerrors.SpecificExcelError] + list(xlerrors.ERRORS_BY_CODE.values())
 
-    # ---- behavioural probe: is the compiled AST part of the persisted graph?
-    m = xlcalculator.ModelCompiler().read_and_parse_dict({'Sheet1!A1': 1, 'Sheet1!B1': '=A1+1'})
-    with tempfile.TemporaryDirectory() as td:
-        fn = os.path.join(td, 'probe.json')
-        m.persist_to_json_file(fn)
-        with open(fn, 'rb') as fh:
-            data = json.loads(fh.read().decode())
-
-    def has_ast(j):
-        if isinstance(j, dict):
-            return any((k == 'ast' and v is not None) or has_ast(v) for k, v in j.items())
-        if isinstance(j, list):
-            return any(has_ast(v) for v in j)
-        return False
-    persists_ast = has_ast(data)
-    if m.cells['Sheet1!B1'].formula.ast is None:
-        raise ValueError('probe: persist_to_json_file removed the AST from the live model')
-
     pairs = lambda xs: lst([f'({chars(a)}, {chars(b)})' for a, b in xs], per_line=False)  # noqa: E731
     texts = lambda xs: lst([chars(x) for x in xs], ty='(List Char)', per_line=False)  # noqa: E731
+    probe_rows = lst([f'({chars(n)}, {boolean(w)}, {boolean(r)})' for n, w, r in codec_rows])
     body = f'''namespace XlVerif.Gen.C12
+-- source reading, informational only (no table depends on it): {_source_note(Model)}
 /-- One `dataclasses.field`: name, `init`, `compare`, has a default, classes the annotation mentions. -/
 structure FieldRow where
   name : List Char
@@ -232,29 +423,40 @@ structure ClassRow where
 def dataclasses : List ClassRow := {lst(class_rows)}
 /-- `dataclasses.fields(Model)`. -/
 def modelFields : List FieldRow := {lst(model_rows)}
-/-- `persist_to_json_file`: the entries `'key': self.attr` of the dict that is written, in order. -/
+/-- probe: the top-level keys of the JSON `persist_to_json_file` writes, in order, each with the model attribute
+    whose dict it holds (`?` if none). -/
 def persistWrites : List (List Char × List Char) := {pairs(writes)}
-/-- `construct_from_json_file`: the assignments `self.attr = data['key']`, in order. -/
+/-- probe: `(attribute, key)` — the attribute of a fresh `Model()` that holds the file's section `key` after
+    `construct_from_json_file`. -/
 def readAssigns : List (List Char × List Char) := {pairs(reads)}
-/-- `construct_from_json_file` has a `build_code` parameter. -/
+/-- probe: the keys without which `construct_from_json_file` raises `KeyError`. -/
+def readerRequires : List (List Char) := {texts(requires)}
+/-- probe: `construct_from_json_file(…, build_code=True)` returns compiled formulas. -/
 def readerHasBuildCode : Bool := {boolean(build_param)}
-/-- the `classes=(…)` allow-list of `jsonpickle.decode`, as qualified names. -/
+/-- probe: the classes of the package `construct_from_json_file` rebuilds when jsonpickle's import fallback is
+    blocked (= the `classes=` allow-list of the decode call), as qualified names. -/
 def allowList : List (List Char) := {texts(allow)}
+/-- probe: a `json://` key is escaped by the writer / unescaped by the reader (`keys=True`). -/
 def encodeKeys : Bool := {boolean(enc_keys)}
 def decodeKeys : Bool := {boolean(dec_keys)}
-/-- writer: `os.path.splitext(fname)[-1](.lower())? in [...]` selects `gzip.GzipFile`. -/
+/-- probe over {len(SPELLINGS)} extension spellings: the writer compresses exactly the names whose extension
+    (lower-cased first if `writerExtLowers`) is in `writerGzipExts`. -/
 def writerExtLowers : Bool := {boolean(w_lowers)}
 def writerGzipExts : List (List Char) := {texts(w_exts)}
+/-- … and the reader opens exactly those through gzip. -/
 def readerExtLowers : Bool := {boolean(r_lowers)}
 def readerGzipExts : List (List Char) := {texts(r_exts)}
+/-- probe, raw observations: (file name, written gzip-compressed?, read through gzip?) -/
+def codecProbe : List (List Char × Bool × Bool) := {probe_rows}
 /-- `ExcelType.__slots__` (a bare string counts as one slot, as Python does). -/
 def excelTypeSlots : List (List Char) := {texts(slots)}
-/-- `ExcelType` defines `__getnewargs__`; the attributes `self.<a>` its returned tuple lists. -/
+/-- every registered `ExcelType` subclass has `__getnewargs__`; `newargsAttrs` = the slots when, for probe
+    instances, `__getnewargs__()` returns exactly the slot values and `__new__(cls, *args)` rebuilds them. -/
 def excelTypeHasNewargs : Bool := {boolean(has_newargs)}
 def newargsAttrs : List (List Char) := {texts(newargs_attrs)}
 /-- parameters of `ExcelType.__new__` after `cls`. -/
 def newParams : List (List Char) := {texts(new_params)}
-/-- registered `ExcelType` subclasses, and those whose `__new__` has a required parameter. -/
+/-- registered `ExcelType` subclasses, and those whose `__new__(cls)` without arguments raises. -/
 def excelTypeClasses : List (List Char) := {texts([qualname(c) for c in subclasses])}
 def newRequired : List (List Char) := {texts([qualname(c) for c in new_required])}
 def errorClasses : List (List Char) := {texts([qualname(c) for c in error_classes])}
@@ -263,3 +465,11 @@ def persistsAst : Bool := {boolean(persists_ast)}
 end XlVerif.Gen.C12
 '''
     return {'C12Dataclass': body}
+
+
+def _persist_plain(td):
+    """A tiny model persisted under a name every variant of the code writes uncompressed or compressed — the
+    payload is taken through `_payload_of`, which undoes either."""
+    path = os.path.join(td, 'tiny_payload.json')
+    _tiny().persist_to_json_file(path)
+    return path
